@@ -55,11 +55,11 @@ def source_obligations():
 def plan(rng, tr):
     """argv lists (without the binary): seed, iterations, budget_s, mode, pika options"""
     if tr == 'thorough':
-        runs = [[rng.below(1 << 30), 4000, 600, 'mix', f'--pika:threads={t}'] for t in (1, 2, 2, 3, 4, 2)]
-        runs += [[rng.below(1 << 30), 600, 300, 'directed', '--pika:threads=2']]
+        runs = [[rng.below(1 << 30), 20000, 900, 'mix', f'--pika:threads={t}'] for t in (1, 2, 2, 3, 4, 2)]
+        runs += [[rng.below(1 << 30), 3000, 600, 'directed', '--pika:threads=2']]
     else:
-        runs = [[rng.below(1 << 30), 400, 120, 'mix', f'--pika:threads={t}'] for t in (1, 2, 3)]
-        runs += [[rng.below(1 << 30), 60, 60, 'directed', '--pika:threads=2']]
+        runs = [[rng.below(1 << 30), 1500, 120, 'mix', f'--pika:threads={t}'] for t in (1, 2, 3)]
+        runs += [[rng.below(1 << 30), 200, 60, 'directed', '--pika:threads=2']]
     return runs
 
 
